@@ -58,8 +58,14 @@ class Check(BaseCheck):
     def search_cases(self):
         return self.cases()
 
+    def known_finding(self, k):
+        v = self.oracle(dict(v=k["input"]["v"], t=k["input"]["t"], it=1, name="known:" + k["id"]))
+        return v is not None and v.clause == k["clause"]
+
     def oracle(self, case):
         v = np.asarray(case["v"], float); t = np.asarray(case["t"], dtype=np.int64); it = int(case["it"])
+        if len({frozenset(int(x) for x in tr) for tr in t}) < len(t):
+            case = dict(case, input_class="duplicate-vertex-set")      # two triangles on the same three vertices (finding F14)
         res = core.call(impl_refine, v, t, it)
         if res[0] != "ok":
             return core.Violation("runs", "refine_ raised %s" % (res[1:],), case)
